@@ -8,7 +8,7 @@
                                                an attack after the change is an attack before it, on
                                                the same target or on the vacated square
      king_step_legal     rules level: a king step to an empty, unattacked square when not in check is legal
-     king_square         LegalPos s -> first_one (pocc b turn King) = Some ksq, ksq holds the only king
+     king_square_c / king_square   LegalPos s -> first_one (pocc b c King) = Some ksq, ksq holds the only king of c
      shortcut_sound      LegalPos s -> is_check s = false -> any valid = true -> gen_legal s <> [] *)
 From WV Require Import Types Bits Attacks Board MoveEnc MoveGen Rules Abs Wf Encode Eval.
 From WV Require Import BitsProofs BoardProofs MoveEncProofs PosEq BoardAlg ApplyProofs LegalPosProofs.
@@ -166,25 +166,31 @@ Proof.
   exists (ctz_pos q). reflexivity.
 Qed.
 
-Theorem king_square : forall s, LegalPos s ->
-  exists ksq, first_one (pocc (st_board s) (st_turn s) King) = Some ksq /\ ksq < 64 /\
-              piece_at (st_board s) ksq = Some (st_turn s, King) /\
-              (forall y, y < 64 -> piece_at (st_board s) y = Some (st_turn s, King) -> y = ksq).
+Theorem king_square_c : forall s c, LegalPos s ->
+  exists ksq, first_one (pocc (st_board s) c King) = Some ksq /\ ksq < 64 /\
+              piece_at (st_board s) ksq = Some (c, King) /\
+              (forall y, y < 64 -> piece_at (st_board s) y = Some (c, King) -> y = ksq).
 Proof.
-  intros s HL. destruct (legal_pos_wf s HL) as [Hwf Hlp].
+  intros s c HL. destruct (legal_pos_wf s HL) as [Hwf Hlp].
   pose proof (wf_state_board s Hwf) as Hb.
   destruct (legal_pos_parts _ Hlp) as (HW & HB & _).
-  assert (Hone : count_pieces (abs s) (st_turn s) King = 1%nat) by (destruct (st_turn s); assumption).
+  assert (Hone : count_pieces (abs s) c King = 1%nat) by (destruct c; assumption).
   apply count_one in Hone. destruct Hone as [x (Hx & Hat & Hu)]. cbn [abs p_at] in Hat, Hu.
   pose proof Hat as Hat'. apply (piece_at_spec _ _ _ _ Hb) in Hat'. destruct Hat' as [_ Htest].
   destruct (first_one_exists _ _ Htest) as [j Hj]. exists j. split; [exact Hj|].
   pose proof (first_one_some _ _ Hj) as Htj.
   assert (Hj64 : j < 64) by exact (test_lt64 _ _ (wf_slots _ Hb _ _) Htj).
-  assert (Hatj : piece_at (st_board s) j = Some (st_turn s, King)).
+  assert (Hatj : piece_at (st_board s) j = Some (c, King)).
   { apply (piece_at_spec _ _ _ _ Hb). split; [discriminate | exact Htj]. }
   split; [exact Hj64|]. split; [exact Hatj|].
   intros y Hy Hyk. rewrite (Hu y Hy Hyk). symmetry. exact (Hu j Hj64 Hatj).
 Qed.
+
+Theorem king_square : forall s, LegalPos s ->
+  exists ksq, first_one (pocc (st_board s) (st_turn s) King) = Some ksq /\ ksq < 64 /\
+              piece_at (st_board s) ksq = Some (st_turn s, King) /\
+              (forall y, y < 64 -> piece_at (st_board s) y = Some (st_turn s, King) -> y = ksq).
+Proof. intros s HL. exact (king_square_c s (st_turn s) HL). Qed.
 
 (* ====================================================================== *)
 (* the shortcut                                                           *)
